@@ -58,7 +58,12 @@ def check(run):
     pops = {method_call(n)[1] for n in walk_local(f.node) if isinstance(n, ast.Call) and method_call(n) and method_call(n)[0] == "self.txgs"}
     ok = ends == {"append"} and pops == {"popleft"}
     run.ob("C21.R3", "%s:txgs-fifo" % MM, ok, run.site(f), "" if ok else "txgs is filled with %s and drained with %s; FIFO needs append/popleft" % (sorted(ends), sorted(pops)))
-    ok = any(isinstance(n, ast.Delete) and unparse(n.targets[0]) == "gram[:cnt]" for n in walk_local(f.node))
+    sentvars = {t.id for n in walk_local(f.node) if isinstance(n, ast.Assign) and isinstance(n.value, ast.Call) and is_self_call(n.value, "send")
+                for t in n.targets if isinstance(t, ast.Name)}
+    gramvars = {a.id for n in walk_local(f.node) if isinstance(n, ast.Call) and is_self_call(n, "send") for a in n.args[:1] if isinstance(a, ast.Name)}
+    ok = any(isinstance(n, ast.Delete) and isinstance(n.targets[0], ast.Subscript) and dotted(n.targets[0].value) in gramvars
+             and isinstance(n.targets[0].slice, ast.Slice) and n.targets[0].slice.lower is None and dotted(n.targets[0].slice.upper) in sentvars
+             for n in walk_local(f.node))
     run.ob("C21.R3", "%s:removes-exactly-sent-prefix" % f.fq, ok, run.site(f), "" if ok else "the sent prefix gram[:cnt] is not what is removed from the gram")
     run.floor("C21.R3", 2)
     # R4 service loops cover the pending buffer
